@@ -14,6 +14,8 @@ package main
 
 import (
 	"bytes"
+	"context"
+	"encoding/base64"
 	"encoding/binary"
 	"encoding/json"
 	"errors"
@@ -32,9 +34,13 @@ import (
 	"github.com/nspcc-dev/neo-go/pkg/core/storage"
 	"github.com/nspcc-dev/neo-go/pkg/core/transaction"
 	"github.com/nspcc-dev/neo-go/pkg/crypto/keys"
+	"github.com/nspcc-dev/neo-go/pkg/encoding/fixedn"
 	"github.com/nspcc-dev/neo-go/pkg/io"
+	"github.com/nspcc-dev/neo-go/pkg/neorpc"
+	"github.com/nspcc-dev/neo-go/pkg/neorpc/result"
 	"github.com/nspcc-dev/neo-go/pkg/neotest"
 	"github.com/nspcc-dev/neo-go/pkg/neotest/chain"
+	"github.com/nspcc-dev/neo-go/pkg/services/rpcsrv"
 	"github.com/nspcc-dev/neo-go/pkg/smartcontract"
 	"github.com/nspcc-dev/neo-go/pkg/smartcontract/callflag"
 	"github.com/nspcc-dev/neo-go/pkg/smartcontract/manifest"
@@ -94,7 +100,7 @@ type c03Method struct {
 	body    []byte
 }
 
-func c03Contract(sender util.Uint160, name string, mgmt util.Uint160) *neotest.Contract {
+func c03Contract(sender util.Uint160, name string, mgmt util.Uint160, version int) *neotest.Contract {
 	methods := []c03Method{
 		{"put", 2, true, false, c03Code(func(w *io.BinWriter) { // stack: key (top), value
 			emit.Syscall(w, interopnames.SystemStorageGetContext)
@@ -128,7 +134,12 @@ func c03Contract(sender util.Uint160, name string, mgmt util.Uint160) *neotest.C
 		})},
 		{"destroy", 0, true, false, c03Code(func(w *io.BinWriter) {
 			emit.AppCall(w, mgmt, "destroy", callflag.All)
-			emit.Opcodes(w, opcode.RET)
+			emit.Opcodes(w, opcode.DROP, opcode.RET) // a call of a void method leaves Null behind
+		})},
+		{"upd", 2, true, false, c03Code(func(w *io.BinWriter) { // upd(nef, manifest): ContractManagement.update of itself
+			emit.Opcodes(w, opcode.PUSH2, opcode.PACK)
+			emit.AppCallNoArgs(w, mgmt, "update", callflag.All)
+			emit.Opcodes(w, opcode.DROP, opcode.RET)
 		})},
 	}
 	var script []byte
@@ -145,6 +156,9 @@ func c03Contract(sender util.Uint160, name string, mgmt util.Uint160) *neotest.C
 		m.ABI.Methods = append(m.ABI.Methods, manifest.Method{Name: md.name, Offset: len(script), Parameters: ps, ReturnType: rt, Safe: md.safe})
 		script = append(script, md.body...)
 	}
+	for i := 0; i < version; i++ {
+		script = append(script, byte(opcode.NOP))
+	}
 	m.Permissions = []manifest.Permission{*manifest.NewPermission(manifest.PermissionWildcard)}
 	config.Version = "0.0.0"
 	ne, err := nef.NewFile(script)
@@ -158,7 +172,7 @@ func c03Contract(sender util.Uint160, name string, mgmt util.Uint160) *neotest.C
 // ---- input ----
 
 type c03Tx struct {
-	T    string      `json:"t"`              // "deploy" | "kv" | "destroy" | "gas" | "neo" | "role"
+	T    string      `json:"t"`              // "deploy" | "kv" | "destroy" | "update" | "gas" | "neo" | "role"
 	Slot int         `json:"slot,omitempty"` // contract slot (its name is "c<slot>")
 	KV   [][2]string `json:"kv,omitempty"`   // kv: [key hex, value hex | "-" (delete)] in execution order
 	Amt  int64       `json:"amt,omitempty"`
@@ -720,6 +734,73 @@ func c03GenSeekSets(r *rng) [][2][]byte {
 	return out
 }
 
+// ---- the real RPC handlers (pkg/services/rpcsrv), called in-process through Server.RegisterLocal ----
+
+type c03RPC struct {
+	call   func(*neorpc.Request) (*neorpc.Response, error)
+	cancel context.CancelFunc
+	id     uint64
+}
+
+func c03NewRPC(bc *core.Blockchain) *c03RPC {
+	cfg := config.RPC{MaxGasInvoke: fixedn.Fixed8FromInt64(100), MaxFindResultItems: 100}
+	cfg.Enabled = true
+	srv := rpcsrv.New(bc, cfg, nil, nil, zap.NewNop(), make(chan error, 4))
+	ctx, cancel := context.WithCancel(context.Background())
+	ev := make(chan neorpc.Notification, 64)
+	go func() {
+		for range ev {
+		}
+	}()
+	return &c03RPC{call: srv.RegisterLocal(ctx, ev), cancel: cancel}
+}
+
+// do calls one handler; the result is the raw JSON result or the error message.
+func (r *c03RPC) do(method string, ps ...any) (res json.RawMessage, errMsg string) {
+	r.id++
+	p := catch(func() {
+		resp, err := r.call(&neorpc.Request{JSONRPC: neorpc.JSONRPCVersion, Method: method, Params: ps, ID: r.id})
+		if err != nil {
+			errMsg = "request failed: " + err.Error()
+			return
+		}
+		if resp.Error != nil {
+			errMsg = fmt.Sprintf("%d %s %s", resp.Error.Code, resp.Error.Message, resp.Error.Data)
+			return
+		}
+		res = resp.Result
+	})
+	if p != "" {
+		errMsg = "panic: " + p
+	}
+	return
+}
+
+// what of an invocation result is compared between the live and the historic call
+func c03InvokeView(res json.RawMessage, errMsg string) string {
+	if errMsg != "" {
+		return "error: " + errMsg
+	}
+	var v struct {
+		State     string          `json:"state"`
+		Stack     json.RawMessage `json:"stack"`
+		Exception *string         `json:"exception"`
+	}
+	if err := json.Unmarshal(res, &v); err != nil {
+		return "undecodable: " + err.Error()
+	}
+	ex := ""
+	if v.Exception != nil {
+		ex = *v.Exception
+		if len(ex) > 120 {
+			ex = ex[:120]
+		}
+	}
+	return v.State + " " + string(v.Stack) + " " + ex
+}
+
+func c03B64(b []byte) string { return base64.StdEncoding.EncodeToString(b) }
+
 // ---- chain case ----
 
 type c03Chain struct {
@@ -767,7 +848,7 @@ func (c *c03Chain) slot(i int) *neotest.Contract {
 	if ct, ok := c.slots[i]; ok {
 		return ct
 	}
-	ct := c03Contract(c.owner.ScriptHash(), fmt.Sprintf("c%d", i), c.bc.ManagementContractHash())
+	ct := c03Contract(c.owner.ScriptHash(), fmt.Sprintf("c%d", i), c.bc.ManagementContractHash(), 0)
 	c.slots[i] = ct
 	return ct
 }
@@ -792,6 +873,18 @@ func (c *c03Chain) buildTx(x c03Tx) *transaction.Transaction {
 			}
 		case "destroy":
 			emit.AppCall(w, c.slot(x.Slot).Hash, "destroy", callflag.All)
+		case "update":
+			// the same contract (same hash, same id) with another script: its storage must stay where it is
+			nc := c03Contract(c.owner.ScriptHash(), fmt.Sprintf("c%d", x.Slot), c.bc.ManagementContractHash(), 1+int(x.Amt))
+			nb, err := nc.NEF.Bytes()
+			if err != nil {
+				panic(err)
+			}
+			mb, err := json.Marshal(nc.Manifest)
+			if err != nil {
+				panic(err)
+			}
+			emit.AppCall(w, c.slot(x.Slot).Hash, "upd", callflag.All, nb, mb)
 		case "gas", "neo":
 			name := "GasToken"
 			if x.T == "neo" {
@@ -949,10 +1042,14 @@ func c03RunChain(co *caseOut, in c03Input, r *rng) {
 	sm := bc.GetStateModule()
 
 	type heightRec struct {
-		root   util.Uint256
-		dump   map[string][]byte
-		probes []c03Res
+		root    util.Uint256
+		dump    map[string][]byte
+		probes  []c03Res
+		rpcLive []string      // invokescript through the RPC handler, right after the block
+		slotID  map[int]int32 // generic contracts that exist at this height, with their ids
 	}
+	rpc := c03NewRPC(bc)
+	defer rpc.cancel()
 	var recs []heightRec
 	maxSlot := int32(0)
 	extraIDs := map[int32]bool{}
@@ -966,6 +1063,13 @@ func c03RunChain(co *caseOut, in c03Input, r *rng) {
 		rec := heightRec{root: sr.Root, dump: c.liveDump(maxSlot, extraIDs)}
 		for _, p := range in.Probes {
 			rec.probes = append(rec.probes, c.runProbe(c.probeScript(p), 0))
+			rec.rpcLive = append(rec.rpcLive, c03InvokeView(rpc.do("invokescript", c03B64(c.probeScript(p)))))
+		}
+		rec.slotID = map[int]int32{}
+		for i, ct := range c.slots {
+			if cs := bc.GetContractState(ct.Hash); cs != nil {
+				rec.slotID[i] = cs.ID
+			}
 		}
 		for int(h) >= len(recs) {
 			recs = append(recs, heightRec{})
@@ -984,7 +1088,7 @@ func c03RunChain(co *caseOut, in c03Input, r *rng) {
 		var txs []*transaction.Transaction
 		failed := ""
 		for _, x := range blk.Txs {
-			if x.T == "deploy" || x.T == "kv" || x.T == "destroy" {
+			if x.T == "deploy" || x.T == "kv" || x.T == "destroy" || x.T == "update" {
 				if int32(x.Slot)+1 > maxSlot {
 					maxSlot = int32(x.Slot) + 1
 				}
@@ -1448,6 +1552,178 @@ func c03RunChain(co *caseOut, in c03Input, r *rng) {
 				break
 			}
 		}
+		// (3a) the RPC handlers themselves: they resolve contract hash -> id and root -> height before touching the trie,
+		// and must do so in the state NAMED BY THE ROOT (a contract destroyed / updated / deployed later must not matter)
+		if retained {
+			histOK := in.Cfg != "latest" // getproof / verifyproof / historic invocations are refused with KeepOnlyLatestState
+			rootS := rec.root.StringLE()
+			// all keys any generic contract ever held, per slot (for "absent at h, present at another height")
+			ever := map[int]map[string]bool{}
+			for _, rr := range recs {
+				for sl, id := range rr.slotID {
+					for k := range rr.dump {
+						if int32(binary.LittleEndian.Uint32([]byte(k[:4]))) == id {
+							if ever[sl] == nil {
+								ever[sl] = map[string]bool{}
+							}
+							ever[sl][k[4:]] = true
+						}
+					}
+				}
+			}
+			slots := make([]int, 0, len(c.slots))
+			for sl := range c.slots {
+				slots = append(slots, sl)
+			}
+			sort.Ints(slots)
+			rpcBad := false
+			for _, sl := range slots {
+				if rpcBad {
+					break
+				}
+				hashS := c.slots[sl].Hash.StringLE()
+				id, exists := rec.slotID[sl]
+				var keysHere, keysElse []string
+				pre := make([]byte, 4)
+				binary.LittleEndian.PutUint32(pre, uint32(id))
+				if exists {
+					for _, kv := range dumpS {
+						if bytes.HasPrefix(kv.K, pre) {
+							keysHere = append(keysHere, string(kv.K[4:]))
+						}
+					}
+				}
+				for k := range ever[sl] {
+					if _, ok := rec.dump[string(pre)+k]; !exists || !ok {
+						keysElse = append(keysElse, k)
+					}
+				}
+				sort.Strings(keysElse)
+				if len(keysHere) > 8 {
+					keysHere = keysHere[:8]
+				}
+				if len(keysElse) > 6 {
+					keysElse = keysElse[:6]
+				}
+				for _, k := range keysHere {
+					want := rec.dump[string(pre)+k]
+					res, em := rpc.do("getstate", rootS, hashS, c03B64([]byte(k)))
+					checks++
+					var got []byte
+					if em == "" {
+						_ = json.Unmarshal(res, &got)
+					}
+					if em != "" || !bytes.Equal(got, want) {
+						viol("RPC getstate against the root of a retained height does not return what the contract stored at that height",
+							at(map[string]any{"slot": sl, "key": hx([]byte(k)), "error": em, "got": hx(got), "want": hx(want)}))
+						rpcBad = true
+						break
+					}
+					if !histOK {
+						continue
+					}
+					res, em = rpc.do("getproof", rootS, hashS, c03B64([]byte(k)))
+					checks++
+					var proofS string
+					if em == "" {
+						_ = json.Unmarshal(res, &proofS)
+					}
+					var vres json.RawMessage
+					vem := "no proof"
+					if em == "" {
+						vres, vem = rpc.do("verifyproof", rootS, proofS)
+					}
+					var vp result.VerifyProof
+					if vem == "" {
+						_ = json.Unmarshal(vres, &vp)
+					}
+					if em != "" || vem != "" || !bytes.Equal(vp.Value, want) {
+						viol("RPC getproof + verifyproof against the root of a retained height do not give the value stored at that height (getstate does)",
+							at(map[string]any{"slot": sl, "key": hx([]byte(k)), "getproof_error": em, "verifyproof_error": vem, "got": hx(vp.Value), "want": hx(want)}))
+						rpcBad = true
+						break
+					}
+					res, em = rpc.do("invokefunctionhistoric", h, hashS, "get", []any{map[string]any{"type": "ByteArray", "value": c03B64([]byte(k))}})
+					checks++
+					view := c03InvokeView(res, em)
+					wantItem := fmt.Sprintf(`{"type":"ByteString","value":"%s"}`, c03B64(want))
+					if !strings.HasPrefix(view, "HALT ") || !strings.Contains(strings.ReplaceAll(view, " ", ""), strings.ReplaceAll(wantItem, " ", "")) {
+						viol("RPC invokefunctionhistoric get(key) at a retained height does not return the value stored at that height",
+							at(map[string]any{"slot": sl, "key": hx([]byte(k)), "got": view, "want": hx(want)}))
+						rpcBad = true
+						break
+					}
+				}
+				for _, k := range keysElse {
+					if rpcBad {
+						break
+					}
+					res, em := rpc.do("getstate", rootS, hashS, c03B64([]byte(k)))
+					checks++
+					if em == "" {
+						viol("RPC getstate returns a value for a key the contract did not hold at that height (it holds or held it at another height)",
+							at(map[string]any{"slot": sl, "key": hx([]byte(k)), "contract_exists_at_height": exists, "got": string(res)}))
+						rpcBad = true
+						break
+					}
+					if !histOK {
+						continue
+					}
+					res, em = rpc.do("getproof", rootS, hashS, c03B64([]byte(k)))
+					checks++
+					if em == "" {
+						var proofS string
+						_ = json.Unmarshal(res, &proofS)
+						if vres, vem := rpc.do("verifyproof", rootS, proofS); vem == "" && string(vres) != `"invalid"` {
+							viol("RPC getproof produces a proof that verifies for a key the contract did not hold at that height",
+								at(map[string]any{"slot": sl, "key": hx([]byte(k)), "contract_exists_at_height": exists, "verified": string(vres)}))
+							rpcBad = true
+							break
+						}
+					}
+				}
+				if exists && !rpcBad {
+					for _, fp := range [][]byte{{}, {0x61}} {
+						res, em := rpc.do("findstates", rootS, hashS, c03B64(fp))
+						checks++
+						var fs result.FindStates
+						if em == "" {
+							_ = json.Unmarshal(res, &fs)
+						}
+						var want []c03KV
+						for _, kv := range dumpS {
+							if bytes.HasPrefix(kv.K, append(bytes.Clone(pre), fp...)) {
+								want = append(want, c03KV{kv.K[4:], kv.V})
+							}
+						}
+						var gotf []c03KV
+						for _, kv := range fs.Results {
+							gotf = append(gotf, c03KV{kv.Key, kv.Value})
+						}
+						if em != "" || !c03EqKVs(gotf, want) {
+							viol("RPC findstates against the root of a retained height differs from the contract's storage at that height",
+								at(map[string]any{"slot": sl, "prefix": hx(fp), "error": em, "got": c03ShowKVs(gotf), "want": c03ShowKVs(want)}))
+							rpcBad = true
+							break
+						}
+					}
+				}
+			}
+			if histOK {
+				for pi, p := range in.Probes {
+					if rpcBad {
+						break
+					}
+					view := c03InvokeView(rpc.do("invokescripthistoric", h, c03B64(c.probeScript(p))))
+					checks++
+					if view != rec.rpcLive[pi] {
+						viol("RPC invokescripthistoric at a retained height returns something else than invokescript returned live at that height",
+							at(map[string]any{"probe": p, "historic": view, "live": rec.rpcLive[pi]}))
+						break
+					}
+				}
+			}
+		}
 		// (3b) mpt.TrieStore driven directly through the storage.Store interface over the persistent store: every range
 		// has one answer on the storage of height h (C09), the trie at root_h must give it
 		var dkeys [][]byte
@@ -1626,8 +1902,10 @@ func c03GenChain(r *rng, cfg string) c03Input {
 				blk.Txs = append(blk.Txs, c03Tx{T: "gas", To: r.intn(3), Amt: int64(1 + r.intn(1000))})
 			case c < 76:
 				blk.Txs = append(blk.Txs, c03Tx{T: "neo", To: r.intn(3), Amt: int64(1 + r.intn(5))})
-			case c < 82:
+			case c < 80:
 				blk.Txs = append(blk.Txs, c03Tx{T: "role", To: r.intn(4)})
+			case c < 83:
+				blk.Txs = append(blk.Txs, c03Tx{T: "update", Slot: r.intn(nslots), Amt: int64(b)})
 			case c < 90 && nslots < 4:
 				blk.Txs = append(blk.Txs, c03Tx{T: "deploy", Slot: nslots})
 				deployed[nslots] = true
